@@ -315,3 +315,117 @@ def _first_diff(a, b, path='model'):
             return f'{path}: {len(a)} items vs {len(b)} items (first extra: {(a[len(b)] if len(a) > len(b) else b[len(a)])!r})'[:300]
         return None
     return None if a == b else f'{path}: {a!r} vs {b!r}'[:300]
+
+
+# ------------------------------------------------------------------------------------------------ parse_expression on concrete texts
+def _expr_model(e):
+    from .lintsim import expr_model
+    return expr_model(e)
+
+
+OPS = ['**', '*', '/', '%', '+', '-', '<=', '<', '>=', '>', '==', '!=', '&&', '||']
+
+
+def expression_corpus(tier='quick'):
+    """(text, 'parse' | 'reject' | 'either') - expectations from the independent front-end (sa/barefront.py)"""
+    texts = []
+    names = ['a', 'b', 'c', 'd', 'e']
+    for o1 in OPS:
+        texts.append(f'a {o1} b')
+        texts.append(f'a{o1}b')
+        for o2 in OPS:
+            texts.append(f'a {o1} b {o2} c')
+    three = [f'a {o1} b {o2} c {o3} d' for o1 in OPS for o2 in OPS for o3 in OPS]
+    four = [f'a {o1} b {o2} c {o3} d {o4} e' for o1 in OPS for o2 in OPS for o3 in OPS for o4 in OPS]
+    texts += three[::(1 if tier == 'thorough' else 3)] + four[::(13 if tier == 'thorough' else 97)]
+    texts += ['!a', '-a', '!-a', '-!a', '!!a', '--a', '- -a', '! - ! a', '!(a)', '-(1)', '-1', '-1.5', '!a && -b', '-a ** 2', '!a == b', '-(a + b) * c', '!f(a)', '-f(a) + 1',
+              '1', '1.5', '10', '0', '1e3', '1e+3', '1.5e-3', '1e+20', '5e-324', '+5', 'a * +2', '-+3', 'f(+1)', '(+7) % 2', '1 + +2', '1 - -2',
+              "'a'", '"a"', "'it\\'s'", '"q\\"x"', "'back\\\\slash'", "''", '""', "'a b'", "'1.0,'", "'a' + \"b\"", "'é '",
+              'f()', 'f(a)', 'f(a, b)', 'f( a ,b )', 'f(g(a), 1 + 2)', 'f(a)(b)', 'f (a)', 'ff(a)', 'f1(a)', '_f(a)', 'if(a, b, c)',
+              '[a b]', '[x\\]y]', '[a] + [b c]', '((a))', '(a + b) * c', 'a * (b + c)', '(a)', '( a )', ' a+b ', 'a  +  b', 'a\t+\tb', 'true', 'null', 'false && true',
+              'a +', '+', 'a b', '(a', 'a)', '', '   ', 'a + * b', '1 2', 'f(a,)', 'f(,)', 'f(a,,b)', 'f(a b)', 'a && ', '()', 'a ! b', "'abc", '1 +', '[a', 'a ** ', '* a', 'f(', 'f(a']
+    out = []
+    for t in texts:
+        try:
+            out.append((t, _expr_model(barefront.parse_expr(t, 0))))
+        except barefront.BareSyntaxError:
+            out.append((t, None))
+    return out
+
+
+def run_expressions(repo, tier='quick', rule='E6p'):
+    """parse_expression evaluated on concrete expression texts against the precedence / associativity reading of the independent front-end -> (n, problems)"""
+    mod = repo.module('parser')
+    func = mod.funcs.get('parse_expression')
+    if func is None:
+        raise Unrecognised(rule, 'parse_expression not found', mod.rel)
+    it = Interp(mod, rule)
+    it.repo = repo
+    it.max_depth = 60
+    problems, n = [], 0
+    for text, want in expression_corpus(tier):
+        n += 1
+        it.depth = 0
+        try:
+            got = reify(it.call_function(func, [text], func))
+        except RaiseSig as sig:
+            if sig.cls != 'BareScriptParserError':
+                problems.append(('raise', f'parse_expression({text!r}) raises {sig.cls}'))
+                continue
+            got = None
+        if isinstance(got, Sym) or _has_sym(got):
+            raise Unrecognised(rule, f'parse_expression({text!r}) evaluates to the unmodelled value {got!r}'[:200], mod.rel)
+        if want is None and got is not None:
+            problems.append(('accepted', f'parse_expression({text!r}) returns {_short(got)}; the text is not a well-formed expression and must be rejected with a parser error'))
+        elif want is not None and got is None:
+            problems.append(('rejected', f'parse_expression({text!r}) is rejected with a parser error; it is well formed: {_short(want)}'))
+        elif want is not None and not _same_expr(got, want):
+            problems.append(('tree', f'parse_expression({text!r}) returns {_short(got)}; the precedence and associativity rules give {_short(want)}'))
+    return n, problems
+
+
+def _has_sym(v):
+    if isinstance(v, Sym):
+        return True
+    if isinstance(v, dict):
+        return any(_has_sym(x) for x in v.values())
+    if isinstance(v, (list, tuple)):
+        return any(_has_sym(x) for x in v)
+    return False
+
+
+def _same_expr(a, b):
+    if isinstance(a, dict) and isinstance(b, dict) and ('name' in a or 'name' in b) and ('args' in a) != ('args' in b):
+        # a call without arguments: the args member may be absent or an empty list
+        a = {k: v for k, v in a.items() if not (k == 'args' and v == [])}
+        b = {k: v for k, v in b.items() if not (k == 'args' and v == [])}
+    if isinstance(a, dict) and isinstance(b, dict):
+        return set(a) == set(b) and all(_same_expr(a[k], b[k]) for k in a)
+    if isinstance(a, list) and isinstance(b, list):
+        return len(a) == len(b) and all(_same_expr(x, y) for x, y in zip(a, b))
+    if isinstance(a, (int, float)) and isinstance(b, (int, float)) and not isinstance(a, bool) and not isinstance(b, bool):
+        return a == b
+    return type(a) is type(b) and a == b
+
+
+def _short(m):
+    def sh(e):
+        if not isinstance(e, dict) or len(e) != 1:
+            return repr(e)
+        k, v = next(iter(e.items()))
+        if k == 'number':
+            return repr(v)
+        if k == 'string':
+            return repr(v)
+        if k == 'variable':
+            return v
+        if k == 'group':
+            return '(' + sh(v) + ')'
+        if k == 'unary':
+            return f"{v.get('op')}{sh(v.get('expr'))}"
+        if k == 'binary':
+            return f"[{sh(v.get('left'))} {v.get('op')} {sh(v.get('right'))}]"
+        if k == 'function':
+            return f"{v.get('name')}({', '.join(sh(a) for a in v.get('args', []))})"
+        return repr(e)
+    return sh(m)[:160]
